@@ -61,9 +61,10 @@ theorem gridScan_ok (dets : List Dev) (trig : Dev → Bool) (axes : List (Rat ×
                 extents := some (axes.map fun a => (a.1, a.2.1))
                 snaking := some flags } } := by
   have hlen := length_gridFlags _ _ _ hf
-  simp only [gridScan, hf, outerProduct_eq axes flags hlen hne, ndMeta,
+  simp only [gridScan, hf, outerProduct_eq axes flags hlen hne, ndMeta, Gen.numPointsMinus, Gen.numIntervalsMinus,
     length_outerTraj _ _ (show flags.length = (gridCols axes).length by simp [gridCols, hlen]),
-    gridCols_lengths]
+    gridCols_lengths, Nat.sub_zero]
+  rfl
 
 theorem listGridScan_ok (dets : List Dev) (trig : Dev → Bool) (lists : List (List Rat)) (sa : SnakeAxes)
     (hne : lists ≠ []) :
@@ -74,8 +75,9 @@ theorem listGridScan_ok (dets : List Dev) (trig : Dev → Bool) (lists : List (L
                 shape := some (lists.map List.length)
                 extents := some (lists.map fun l => (listMin l, listMax l)) } } := by
   have hlen := length_outerListFlags lists.length sa
-  simp only [listGridScan, outerListProduct, ofRes_snakeCyclers lists _ hlen hne, ndMeta,
-    length_outerTraj _ _ hlen]
+  simp only [listGridScan, outerListProduct, ofRes_snakeCyclers lists _ hlen hne, ndMeta, Gen.numPointsMinus, Gen.numIntervalsMinus,
+    length_outerTraj _ _ hlen, Nat.sub_zero]
+  rfl
 
 theorem scan_ok (dets : List Dev) (trig : Dev → Bool) (args : List (Rat × Rat)) (num : Nat)
     (hnum : 0 < num) (hne : args ≠ []) :
@@ -84,7 +86,7 @@ theorem scan_ok (dets : List Dev) (trig : Dev → Bool) (args : List (Rat × Rat
           ((List.range num).map fun (k : Nat) =>
             args.zipIdx.map fun x => (x.2, x.1.1 + (k : Rat) * ((x.1.2 - x.1.1) / ((num : Rat) - 1))))
         md := { numPoints := num, numIntervals := (num : Int) - 1 } } := by
-  simp [scan, Nat.ne_of_gt hnum, innerProduct_eq num args hne, ndMeta]
+  simp [scan, Nat.ne_of_gt hnum, innerProduct_eq num args hne, ndMeta, Gen.numPointsMinus, Gen.numIntervalsMinus]
 
 
 theorem listScan_ok (dets : List Dev) (trig : Dev → Bool) (lists : List (List Rat)) (N : Nat)
@@ -129,7 +131,7 @@ theorem x2xScan_ok (dets : List Dev) (trig : Dev → Bool) (init0 init1 start st
     have hk' : k < num := by simpa using hk
     simp [List.zipIdx_cons, getElem?_linspace _ _ _ _ hk']
   rw [ht] at hz
-  simp [x2xScan, Nat.ne_of_gt hnum, hz, ndMeta, x2xTraj]
+  simp [x2xScan, Nat.ne_of_gt hnum, hz, ndMeta, Gen.numPointsMinus, Gen.numIntervalsMinus, x2xTraj]
 
 
 theorem length_snapshots (p : Pos) (l : List Msg) : (snapshots p l).length = l.count Msg.save := by
@@ -187,7 +189,7 @@ theorem snapshots_logBlocks (dets : List Dev) (trig : Dev → Bool) (steps : Lis
     obtain ⟨pre, hpre, hin⟩ := inert_triggerAndRead_init (dets ++ [Dev.mot 0]) trig
     simp only [List.map_cons, List.flatten_cons, one1dStep, hpre, snapshots_append, finalPos_append]
     simp only [List.cons_append, List.nil_append, snapshots, finalPos, snapshots_inert _ pre hin,
-      finalPos_inert _ pre hin, List.append_assoc, Matches]
+      finalPos_inert _ pre hin, Matches]
     refine ⟨by simp, ih _⟩
 
 theorem isPointBlock_one1dStep (dets : List Dev) (trig : Dev → Bool) (x : Rat) :
